@@ -230,7 +230,8 @@ def run_sched(kind: str, scenario: str, policy: sched.Policy, clock: vclock.VClo
                 if isinstance(exc, (sched.SchedAbort, sched.Crash)):
                     raise
                 got = ("raised", exc)
-            obs["reads"].append((st_.name, got))
+            st_after = c.status  # finals are absorbing: a value can only have been handed out if the status is final by now
+            obs["reads"].append((st_.name, got, st_after.name))
 
     tf = sched.trace_file_set("pynenc/orchestrator/mem_orchestrator.py", "pynenc/state_backend/mem_state_backend.py", "pynenc/orchestrator/base_orchestrator.py",
                               "pynenc/invocation/dist_invocation.py", "pynenc/state_backend/base_state_backend.py") if kind == "mem" else set()
@@ -251,7 +252,7 @@ def judge_sched(scenario: str, obs: dict) -> list[tuple[str, str]]:
     from pynenc.exceptions import InvocationError
 
     probs = []
-    for st_, (what, payload) in obs["reads"]:
+    for st_, (what, payload), st_after in obs["reads"]:
         if st_ == "SUCCESS":
             if what != "value":
                 probs.append(("success-without-result", f"status SUCCESS observed but get_final_result raised {type(payload).__name__}: {payload}"))
@@ -263,8 +264,9 @@ def judge_sched(scenario: str, obs: dict) -> list[tuple[str, str]]:
             elif not V.same(payload, obs["error"]):
                 probs.append(("failed-wrong-exception", f"status FAILED observed but get_final_result raised {type(payload).__name__}: {payload!r}"))
         else:
-            if what == "value":
-                probs.append(("value-while-not-final", f"status {st_} observed and get_final_result returned {payload!r}"))
+            if what == "value" and st_after not in ("SUCCESS",):
+                # (the status read before the request may be stale by the time the result is requested: judged by the status afterwards)
+                probs.append(("value-while-not-final", f"get_final_result returned {payload!r} but the status was {st_} before and {st_after} after the request"))
     for e in obs["errors"]:
         probs.append(("actor-exception", e))
     return probs
@@ -288,7 +290,7 @@ def sched_shard(kind: str, scenario: str, p_max: int, limit: int, seed: int, kno
         for tag, s in explore.dfs_preemptions(run_with, p_max, limit=limit):
             obs = s.obs
             part.case(key=(kind, scenario, tuple(s.choices)), nontrivial=obs["between"], classes=[f"backend_{kind}", f"sc_{scenario}", f"forced{len(tag)}", "reader_between_store_and_publish" if obs["between"] else "other"],
-                      sample={"backend": kind, "scenario": scenario, "choices": s.choices[:50], "reads": [(a, b[0]) for a, b in obs["reads"]]})
+                      sample={"backend": kind, "scenario": scenario, "choices": s.choices[:50], "reads": [(a, b[0], c_) for a, b, c_ in obs["reads"]]})
             if s.failure is not None:
                 if not isinstance(s.failure, sched.Budget):
                     key = f"schedules:{kind}:deadlock"
